@@ -436,10 +436,9 @@ def run_extractor(root, log):
 
 
 MIRI_SCOPES = [
-    ("aset", dict(type="A8u16", mode="bfs", slots=2, max_slots=3, vals="1,2,3", fill=0)),
-    ("aset", dict(type="A16keyed", mode="bfs", slots=3, vals="1,2,3", updates=1, fill=0, max_transitions=1500)),
-    ("podstr", dict(n=2, chars=1)),
-    ("pstr", dict(w=1, size=3, chars=1)),
+    ("aset", dict(type="A8u16", mode="bfs", slots=2, max_slots=2, vals="1,2,3", fill=0)),
+    ("podstr", dict(n=2, chars=1, bytes=0)),
+    ("pstr", dict(w=1, size=3, chars=1, bytes=0)),
 ]
 
 
@@ -457,7 +456,7 @@ def run_extras(pid, tier, seed, hbin, wd, env, log):
             e = dict(env, MIRIFLAGS="-Zmiri-disable-isolation", VERIF_JOURNAL=journal)
             rec = {"kind": "miri", "cmd": " ".join(argv[5:]), "evaluations": 0, "distinct_nontrivial": 0, "samples": []}
             try:
-                p = subprocess.run(argv, cwd=hdir, env=e, stdout=subprocess.PIPE, stderr=subprocess.STDOUT, text=True, timeout=3000)
+                p = subprocess.run(argv, cwd=hdir, env=e, stdout=subprocess.PIPE, stderr=subprocess.STDOUT, text=True, timeout=1200)
                 log.write(p.stdout[-3000:])
                 if "Undefined Behavior" in p.stdout or (p.returncode != 0 and "error:" in p.stdout):
                     ub = [l for l in p.stdout.splitlines() if "Undefined Behavior" in l or l.startswith("error")][:2]
